@@ -41,7 +41,7 @@ package varmq
 
 // Idle list: a ring (RI_List) of detached-from-nothing nodes whose channels are open.
 //@ pred PoolOK(w *worker) := w.pool != nil && w.pool.List != nil && @RI_List(w.pool.List)
-//@      && (forall n *linkedlist.Node[pool.Node[JobType]] {w.pool.List.$in[n]} :: w.pool.List.$in[n] && n != $addr(w.pool.List.root) ==> n.Value.ch != nil && $open(n.Value.ch) && $cap(n.Value.ch) >= 1)
+//@      && (forall n *linkedlist.Node[pool.Node[JobType]] {w.pool.List.$in[n]} :: w.pool.List.$in[n] && n != $addr(w.pool.List.root) ==> $alloc(n) && n.Value.ch != nil && $open(n.Value.ch) && $cap(n.Value.ch) >= 1)
 //@ pred NodeFree(n *linkedlist.Node[pool.Node[JobType]]) := n != nil && $alloc(n) && n.next == nil && n.prev == nil && n.Value.ch != nil && $open(n.Value.ch) && $cap(n.Value.ch) >= 1
 
 // Worker invariant, per lifecycle state (C14): what "Running" must mean for the worker to be able to process jobs.
